@@ -9,4 +9,5 @@ CONSTANTS
   Rich = TRUE
 INVARIANT DesignFaithful
 INVARIANT DeviationsExplain
+INVARIANT Emit
 CHECK_DEADLOCK FALSE
